@@ -85,6 +85,8 @@ pub enum Ty {
     Unit,
     Bool,
     Int(IK),
+    /// float32 (true) / float64 (false): values are small dyadic rationals, so + - * are exact
+    Float(bool),
     Str,
     Tuple(Vec<Ty>),
     Array(Box<Ty>, u32),
@@ -289,6 +291,8 @@ pub enum Expr {
     Bool(bool),
     /// integer literal (non-negative magnitude); `true` = written with suffix
     Int(IK, i128, bool),
+    /// float literal (float32?, non-negative dyadic value with at most 3 fractional bits)
+    Float(bool, f64),
     Str(String),
     Var(VarId),
     /// top-level (monomorphic) function used as a value
